@@ -239,6 +239,7 @@ def r5(R, repo):
 @rule('C06.R6', 'K2', 14, 'scopes are repacked and published exactly once around the mapped / scanned call (shared with C05.R1, C05.R2)')
 def r6(R, repo):
   _c05.r1(R, repo)
+  _c05.check_put_merges(R, repo)
 
 
 @rule('C06.R7', 'K1', 8, 'partition metadata follows the stacked axis (shared with C19.R2)')
